@@ -330,12 +330,13 @@ func tail(s string, n int) string {
 // --- known findings -----------------------------------------------------------------------
 
 type knownFinding struct {
-	Property string `json:"property"`
-	Class    string `json:"class"`
-	SigRe    string `json:"sig_regex"`
-	What     string `json:"what"`
-	Status   string `json:"status"`
-	Commit   string `json:"commit,omitempty"`
+	Property string   `json:"property"`
+	Class    string   `json:"class"`
+	SigRe    string   `json:"sig_regex"`
+	What     string   `json:"what"`
+	Status   string   `json:"status"`
+	Commit   string   `json:"commit,omitempty"`
+	AlsoFor  []string `json:"also_for,omitempty"`
 }
 
 func loadKnown() []knownFinding {
@@ -552,7 +553,13 @@ func main() {
 		}
 	}
 	for _, k := range loadKnown() {
-		if k.Property != prop || k.Status != "known" {
+		applies := k.Property == prop
+		for _, a := range k.AlsoFor {
+			if a == prop {
+				applies = true
+			}
+		}
+		if !applies || k.Status != "known" {
 			continue
 		}
 		fmt.Printf("KNOWN-FINDING: property=%s %s\n", prop, k.What)
